@@ -257,8 +257,16 @@ impl Server {
             return;
         }
 
+        // Connections which are active or may still become active (pending handshakes)
+        let active_count = self.clients.values().filter(|client| {
+            match client.borrow().state {
+                remote_client::State::Pending(_) | remote_client::State::Active(_) => true,
+                _ => false,
+            }
+        }).count();
+
         if self.clients.len() >= self.config.max_total_connections
-            && self.active_clients.len() >= self.config.max_active_connections
+            || active_count >= self.config.max_active_connections
         {
             // No room in the inn
             let reply = frame::Frame::HandshakeErrorFrame(frame::HandshakeErrorFrame {
